@@ -320,7 +320,10 @@ def run(ck):
                "per a length, two offset units, offset x delta, delta per kelvin ...): predicates, pairs of equal "
                "dimensionality, numbers, powers, conversions. 5 string parsing under both default_as_delta values. 6 log "
                "units: every ordered pair of log units and related linear units — the conversion plan exactly, the float "
-               "value |err| <= 1e-12*max(1,|expected|) against a 60-digit evaluation (a test), same-unit + - and * 2. "
+               "value |err| <= 1e-12*max(1,|expected|) against a 60-digit evaluation (a test), same-unit + - and * 2. 7 ONE registry with autoconvert_offset_to_baseunit switched at run time (built in "
+               "either mode; Fraction and float): random sequences of conversions of compound containers, single units, "
+               "root units, powers, arithmetic — each answer must equal that of a never-switched registry in the current "
+               "mode (and the model's); a difference is shrunk to a short reproducing sequence. "
                "Every operation is labelled with the branch pint's own predicates select; the model must take the same "
                "branch and return the same value and unit or the same exception class. non-trivial = distinct (stream, "
                "operator, units, autoconvert, magnitude kind)")
@@ -875,6 +878,9 @@ def run(ck):
     # 6. logarithmic units (floats)
     log_stream(ck, rng, thorough, add, oracle)
 
+    # 7. one registry whose mode is switched between operations
+    toggle_stream(ck, rng, thorough, lines, units, comp, add, oracle)
+
     # ------------------------------------------------------------ differ (inside Coq)
     need_a = {"ANumZero", "ANumDimless", "ANumRefuse", "AMultSame", "AMultToOther", "AMultToSelf", "ASubOffLeft", "ASubOffRight",
               "AOffDelta", "ADeltaOff", "ARefuse"}
@@ -917,6 +923,172 @@ def run(ck):
             ck.violation("correspondence", "model and implementation disagree; no property oracle failed",
                          {"first_disagreement": descs[bad[0]], "coq_case": cases[bad[0]], "n": len(bad),
                           "more": [descs[i] for i in bad[1:6]], "defs": lines}, no_input=True)
+
+
+# ---------------------------------------------------------------- one registry, mode switched at run time
+def _uc(reg, u):
+    if isinstance(u, dict):
+        return reg.UnitsContainer({k: (int(F(v)) if F(v).denominator == 1 else F(v)) for k, v in u.items()})
+    return u
+
+
+def _num(x, exactly):
+    x = F(x)
+    if not exactly:
+        return float(x)
+    return int(x) if x.denominator == 1 else x
+
+
+def perform_step(reg, st, exactly=True):
+    """one step of a mode sequence on registry `reg`: sets the flag, performs the operation -> canonical outcome"""
+    import operator
+    reg.autoconvert_offset_to_baseunit = st["auto"]
+    k = st["kind"]
+
+    def q(spec):
+        x, u = spec
+        return _num(x, exactly) if u is None else reg.Quantity(_num(x, exactly), _uc(reg, u))
+    try:
+        if k == "conv":
+            r = q(st["a"]).to(_uc(reg, st["dst"]))
+        elif k == "convert":
+            r = reg.convert(_num(st["a"][0], exactly), _uc(reg, st["a"][1]), _uc(reg, st["dst"]))
+            r = reg.Quantity(r, _uc(reg, st["dst"]))
+        elif k == "root":
+            r = q(st["a"]).to_root_units()
+        elif k == "pow":
+            r = q(st["a"]) ** st["e"]
+        else:
+            f = {"add": operator.add, "sub": operator.sub, "mul": operator.mul, "div": operator.truediv,
+                 "lt": operator.lt, "eq": operator.eq}[k]
+            r = f(q(st["a"]), q(st["b"]))
+    except Exception as e:  # noqa: BLE001
+        return ("err", err_class(e))
+    if hasattr(r, "_units"):
+        m = r._magnitude
+        return ("val", F(m) if exactly else float(m), tuple(sorted(ucd(r._units).items())))
+    return ("bool", bool(r))
+
+
+def toggle_stream(ck, rng, thorough, lines, units, comp, add, oracle):
+    """The property speaks of the result 'in each registry mode': the mode is a plain attribute that may be
+    switched at run time.  ONE registry is driven through a random sequence of operations with the flag flipped
+    in between; every answer must be the answer of a fresh registry built in the mode that is current."""
+    import pint
+
+    def fresh(nit, auto):
+        r = pint.UnitRegistry(cache_folder=None, autoconvert_offset_to_baseunit=auto,
+                              **({"non_int_type": F} if nit else {}))
+        for ln in (lines if nit else []):
+            r.define(ln)
+        return r
+
+    offs = [u for u in units if u.kind == "offset"]
+    dflt = [u for u in offs if not u.generated]
+    some = dflt + rng.sample([u for u in offs if u.generated], min(6, len(offs) - len(dflt)))
+    cont = [c for c, _ in comp]
+    # conversions of an offset unit next to other units: to the same co-units with kelvin / another offset unit
+    pairs = []
+    for c in cont:
+        hit = [k for k in c if k in {u.name for u in offs}]
+        if len(hit) == 1 and c[hit[0]] == 1:
+            for tgt in ("kelvin", rng.choice(some).name, "degree_Rankine"):
+                d = {k: v for k, v in c.items() if k != hit[0]}
+                d[tgt] = d.get(tgt, 0) + 1
+                d = {k: v for k, v in d.items() if v != 0}
+                pairs += [(c, d), (d, c)]
+    for u in some:
+        for co in ({"millimeter": F(1), "meter": F(-1)}, {"second": F(-1)}, {"meter": F(2)}):
+            a = dict(co, **{u.name: F(1)})
+            for tgt in ("kelvin", rng.choice(some).name):
+                b = dict(co, **{tgt: F(1)})
+                pairs += [(a, b), (b, a)]
+    singles = [u.name for u in units if not u.generated] + [u.name for u in rng.sample([u for u in units if u.generated], 6)]
+    log_pairs = [({"decibelmilliwatt": 1, "hertz": -1}, {"milliwatt": 1, "hertz": -1}),
+                 ({"watt": 1, "hertz": -1}, {"decibelwatt": 1, "hertz": -1}),
+                 ({"neper": 1, "meter": -1}, {"meter": -1}),
+                 ({"decibelmilliwatt": 1, "hertz": -1}, {"decibelwatt": 1, "hertz": -1}),
+                 ({"decibel": 1, "second": -1}, {"second": -1}),
+                 ({"decibelmilliwatt": 1}, {"milliwatt": 1}), ({"octave": 1}, {}), ({"watt": 1}, {"decibelmilliwatt": 1})]
+
+    def rnd_step(exactly):
+        x = str(F(rng.randint(-300, 300), rng.choice([1, 1, 2, 5]))) if exactly else str(F(rng.randint(1, 400), 8))
+        c = rng.random()
+        if not exactly:
+            a, b = rng.choice(log_pairs)
+            if rng.random() < 0.5 and a and b:
+                a, b = b, a
+            if c < 0.8:
+                return {"kind": rng.choice(["conv", "convert"]), "a": [x, dict(a)], "dst": dict(b)}
+            if c < 0.9:
+                return {"kind": "root", "a": [x, dict(a)]}
+            return {"kind": rng.choice(["mul", "add", "sub"]), "a": [x, dict(a)], "b": ["2", None if rng.random() < 0.5 else dict(a)]}
+        if c < 0.55:
+            a, b = rng.choice(pairs)
+            return {"kind": rng.choice(["conv", "convert"]), "a": [x, a], "dst": b}
+        if c < 0.65:
+            a, b = rng.sample(singles, 2)
+            return {"kind": "conv", "a": [x, a], "dst": b}
+        if c < 0.72:
+            return {"kind": "root", "a": [x, rng.choice(cont + singles)]}
+        if c < 0.8:
+            return {"kind": "pow", "a": [x, rng.choice(cont + singles)], "e": rng.choice([-1, 2, 1, 0])}
+        y = str(F(rng.randint(-300, 300), rng.choice([1, 2])))
+        k = rng.choice(["add", "sub", "mul", "div", "lt", "eq"])
+        if rng.random() < 0.3:
+            return {"kind": k, "a": [x, rng.choice(singles)], "b": [y if rng.random() < 0.5 else "0", None]}
+        a, b = (rng.choice(singles), rng.choice(singles)) if rng.random() < 0.6 else rng.choice(pairs)
+        return {"kind": k, "a": [x, a], "b": [y, b]}
+
+    def name(st):
+        d = st.get("dst", (st.get("b") or [None, None])[1])
+        return f"{st['kind']}:{uname(st['a'][1]) if st['a'][1] is not None else 'num'}->{uname(d) if isinstance(d, (dict, str)) else 'num'}"
+
+    def uname(u):
+        return u if isinstance(u, str) else "*".join(f"{k}^{v}" for k, v in sorted(u.items())) or "dimensionless"
+
+    n_steps = (6000, 2500) if thorough else (1200, 500)
+    for exactly, steps, label in ((True, n_steps[0], "fraction"), (False, n_steps[1], "float")):
+        ref = {a: fresh(exactly, a) for a in (False, True)}     # never switched
+        for start in (False, True):                              # constructed in either mode, then switched
+            one = fresh(exactly, start)
+            flag, hist = start, []
+            for _ in range(steps // 2):
+                if rng.random() < 0.45:
+                    flag = not flag
+                st = dict(rnd_step(exactly), auto=flag)
+                if hist and rng.random() < 0.35:
+                    st = dict(rng.choice(hist[-12:]), auto=flag)     # the same operation again, maybe in the other mode
+                got = perform_step(one, st, exactly)
+                exp = perform_step(ref[flag], st, exactly)
+                hist.append(st)
+                ck.case(key=("toggle", label, name(st), flag))
+                ck.count("toggle:" + label)
+                if exactly and st["kind"] in ("conv", "convert") and got[0] != "bool":
+                    o = Out("err", err=got[1]) if got[0] == "err" else Out("val", [got[1]], dict(got[2]))
+                    add(f"KConv {coq_bool(flag)} false {coq_q(F(st['a'][0]))} {coq_uc({k: F(v) for k, v in (st['a'][1] if isinstance(st['a'][1], dict) else {st['a'][1]: 1}).items()})} "
+                        f"{coq_uc({k: F(v) for k, v in (st['dst'] if isinstance(st['dst'], dict) else {st['dst']: 1}).items()})} {coq_obsn(o, 0)}",
+                        {"op": "mode-sequence-step", "step": st, "observed": repr(got)}, ("toggle-k", name(st), flag), "toggle:model")
+                if got == exp:
+                    continue
+                # shrink: the same operation in the other mode first, else the shortest suffix of the history
+                seq = None
+                for cand in ([dict(st, auto=not flag), st], [dict(st, auto=not flag)] * 2 + [st]):
+                    r = fresh(exactly, start)
+                    if [perform_step(r, c, exactly) for c in cand][-1] == got:
+                        seq = cand
+                        break
+                if seq is None:
+                    for n in (2, 4, 8, 16, 32, len(hist)):
+                        r = fresh(exactly, start)
+                        if [perform_step(r, c, exactly) for c in hist[-n:]][-1] == got:
+                            seq = hist[-n:]
+                            break
+                oracle(False, f"mode-toggle:now-{'autoconvert' if flag else 'default'}:{name(st)}",
+                       f"one registry (built with autoconvert={start}), mode switched at run time: step {st} gives {got}, "
+                       f"a fresh registry in that mode gives {exp}; reproducing sequence has {len(seq or hist)} steps",
+                       {"op": "mode-sequence", "numeric": label, "constructed_with_autoconvert": start, "steps": seq or hist,
+                        "expected_last": repr(exp), "observed_last": repr(got)})
 
 
 # ---------------------------------------------------------------- logarithmic units
@@ -1079,7 +1251,22 @@ def replay(ck, path):
     doc = json.loads(open(path).read())
     rp = doc["replay"]
     print(json.dumps(doc, indent=1))
-    if "op" not in rp or rp["op"] in ("path", "parse", "log-plan", "log-conv", "predicates"):
+    if rp.get("op") == "mode-sequence":
+        exactly = rp["numeric"] == "fraction"
+        reg = pint.UnitRegistry(cache_folder=None, autoconvert_offset_to_baseunit=rp["constructed_with_autoconvert"],
+                                **({"non_int_type": F} if exactly else {}))
+        for ln in rp.get("defs", []):
+            reg.define(ln)
+        for st in rp["steps"]:
+            print("autoconvert =", st["auto"], st["kind"], st["a"], "->", st.get("dst", st.get("b", st.get("e"))), ":",
+                  perform_step(reg, st, exactly))
+        fresh = pint.UnitRegistry(cache_folder=None, autoconvert_offset_to_baseunit=rp["steps"][-1]["auto"],
+                                  **({"non_int_type": F} if exactly else {}))
+        for ln in rp.get("defs", []):
+            fresh.define(ln)
+        print("a fresh registry in the last mode:", perform_step(fresh, rp["steps"][-1], exactly))
+        return 0
+    if "op" not in rp or rp["op"] in ("path", "parse", "log-plan", "log-conv", "predicates", "mode-sequence-step"):
         return 0
     mode = rp.get("mode", [False, True])
     reg = pint.UnitRegistry(non_int_type=F, cache_folder=None, autoconvert_offset_to_baseunit=mode[0], default_as_delta=mode[1])
